@@ -11,6 +11,7 @@ CONSTANTS
   SecondStopHangs = TRUE
   AwaitsLastWorkerOnly = FALSE
   WakeAcceptFirst = FALSE
+  MidPollIgnoresStop = FALSE
 SPECIFICATION FairSpec
 PROPERTIES C06_AlwaysCompletes
 CHECK_DEADLOCK FALSE
